@@ -46,7 +46,23 @@
 // `if <error> != nil { return … }` guards whose body contains no call besides dropped ones are elided, and so are
 // conditionals and loops without any item in them.
 // Loop facts: kind (range / index / while / forever), the value iterated (`over`), the start index, whether the step is
-// one, and whether `sort.Strings(<over>)` precedes the loop in the function with no assignment to the list in between.
+// one, and whether a sort of the list precedes the loop in the function with no assignment to the list in between.  "A
+// sort" is every standard way of sorting a []string ascending in place (canon.go `stringSortArg`: sort.Strings,
+// slices.Sort, sort.Sort / sort.Stable(sort.StringSlice(x)), sort.StringSlice(x).Sort(), slices.SortFunc /
+// SortStableFunc with strings.Compare / cmp.Compare) — all are the item `sortStrings`; the fact is carried into an inlined
+// helper that receives the sorted list as a parameter.  Everything else of package slices / sort that writes into its
+// argument (slices.Reverse, …) is NOT dropped as pure: it shows as `other`.
+//
+// A FUNCTION LITERAL THAT IS CALLED WHERE IT STANDS and an inlined helper are the same thing written in two ways and get
+// the same items (`emitCallee`): the body in the normal form in which every `return` is equivalent to reaching its end,
+// wrapped in scopeBegin / scopeEnd when a `return` is left or when it defers something (the deferred block runs when the
+// callee ends).  Turning `err := func() error { … }()` into a private method, or back, changes nothing.
+//
+// A boolean helper `f(args)` in a condition whose body is declarations of locals assigned once followed by
+// `return <expr>` is replaced by that expression (canon.go `condCall`), so `if hasEmptyMetadata(p)` and the written-out
+// `info, err := os.Stat(…); if err == nil && info.Size() == 0` are the same condition text, and the helper's calls are
+// the same items (it is inlined); `hasEmptyMetadata` is therefore no longer a listed function: the fact "the metadata
+// file of the table at hand is stat'ed first" is the label `hasEmptyMetadataCheck` on that os.Stat itself.
 //
 // Evaluation order inside a statement: arguments before the call (post-order); the value of a send before the send.
 //
@@ -86,7 +102,7 @@ var targets = []target{
 	{"simpledb/compaction.go", "simpledb", []string{"backgroundCompaction", "executeCompaction", "saveCompactionMetadata"}},
 	{"simpledb/sstable_manager.go", "simpledb", []string{"SSTableManager.reflectCompactionResult", "SSTableManager.addReader"}},
 	{"simpledb/recovery.go", "simpledb", []string{"DB.repairCompactions", "DB.reconstructSSTables", "isUnfinishedTable",
-		"removeUnfinishedTable", "hasEmptyMetadata", "DB.replayAndSetupWriteAheadLog"}},
+		"removeUnfinishedTable", "DB.replayAndSetupWriteAheadLog"}},
 	{"sstables/sstable_writer.go", "sstables", []string{"SSTableStreamWriter.Open", "SSTableStreamWriter.WriteNext", "SSTableStreamWriter.Close"}},
 	{"memstore/memstore.go", "memstore", []string{"MemStore.FlushWithTombstones", "flushMemstore"}},
 	{"wal/appender.go", "wal", []string{"Appender.Append", "Appender.AppendSync", "Appender.Rotate", "Appender.Close",
@@ -694,14 +710,18 @@ func (w *walker) classify(callee, m string, call *ast.CallExpr) (string, string,
 	case strings.HasPrefix(callee, "log.") && logTerminators[strings.TrimPrefix(callee, "log.")]:
 		return "panicLog", "", true
 	// ---- generic
-	case callee == "sort.Strings" && call != nil && len(call.Args) == 1:
-		return "sortStrings", w.overStr(call.Args[0]), true
+	case call != nil && w.c.stringSortArg(call) != nil:
+		return "sortStrings", w.overStr(w.c.stringSortArg(call)), true
 	case callee == "google.golang.org/protobuf/proto.Marshal":
 		return "protoMarshal", "", true
 	case callee == "google.golang.org/protobuf/proto.Unmarshal":
 		return "protoUnmarshal", "", true
 	case callee == "path/filepath.Walk":
 		return "walkDir", "", true
+	case callee == "os.Stat" && in("DB.reconstructSSTables") && strings.Contains(a, "sstables.MetaFileName") && strings.Contains(a, "elem(‹[]string›)"):
+		// (was: the call of the private helper hasEmptyMetadata; the helper is inlined now, so the fact is the same whether
+		// the stat + predicate stand in a helper or in the loop itself)
+		return "hasEmptyMetadataCheck", "", true
 	case callee == "os.Stat":
 		return "osStat", "", true
 	case callee == "os.ReadDir":
@@ -873,8 +893,6 @@ func (w *walker) classify(callee, m string, call *ast.CallExpr) (string, string,
 		return "readFlag", "", true
 	case m == "recordio/proto.ReaderI.Close" && in("DB.repairCompactions"):
 		return "closeFlagReader", "", true
-	case callee == "simpledb.hasEmptyMetadata":
-		return "hasEmptyMetadataCheck", "", true
 	case callee == "simpledb.isUnfinishedTable":
 		return "isUnfinishedTableCheck", "", true
 	case callee == "simpledb.removeUnfinishedTable":
@@ -989,8 +1007,8 @@ func (w *walker) call(call *ast.CallExpr) {
 	}
 	if l, p, ok := w.classify(callee, m, call); ok {
 		w.emit(&node{kind: "act", s: l, arg: p})
-		if l == "sortStrings" && len(call.Args) == 1 {
-			w.sorted[w.listKey(call.Args[0])] = true
+		if l == "sortStrings" {
+			w.sorted[w.listKey(w.c.stringSortArg(call))] = true
 		}
 		return
 	}
@@ -1038,6 +1056,10 @@ func (w *walker) inline(call *ast.CallExpr) bool {
 				if !w.c.isErrorTyped(call.Args[i]) {
 					hw.c.subst[sig.Params().At(i)] = w.c.expr(call.Args[i])
 				}
+				// a list the caller has sorted is still sorted inside the helper (until the helper assigns to it)
+				if w.sorted[w.listKey(call.Args[i])] {
+					hw.sorted[fmt.Sprintf("obj@%d", sig.Params().At(i).Pos())] = true
+				}
 			}
 		}
 		if sig.Recv() != nil {
@@ -1051,14 +1073,39 @@ func (w *walker) inline(call *ast.CallExpr) bool {
 	if !hasItems(body) {
 		return true // a helper without visible effect
 	}
-	if containsRet(body) {
+	w.emitCallee(body)
+	return true
+}
+
+// the items of a called body (an inlined helper, an immediately invoked function literal — the same thing written in two
+// ways): in a scope of its own when it has a `return` left or defers something (the deferred block runs when the CALLEE
+// ends, not when the caller does), otherwise spliced into the caller's list
+func (w *walker) emitCallee(body []*node) {
+	if containsRet(body) || containsDefer(body) {
 		w.emit(&node{kind: "scope", body: body})
-		return true
+		return
 	}
 	for _, n := range body {
 		w.emit(n)
 	}
-	return true
+}
+
+func containsDefer(b []*node) bool {
+	for _, n := range b {
+		switch n.kind {
+		case "defer":
+			return true
+		case "if":
+			if containsDefer(n.then) || containsDefer(n.els) {
+				return true
+			}
+		case "loop":
+			if containsDefer(n.body) {
+				return true
+			}
+		}
+	}
+	return false
 }
 
 func containsRet(b []*node) bool {
@@ -1396,14 +1443,15 @@ func (w *walker) invoke(c *ast.CallExpr, deferred bool) {
 		for _, a := range c.Args {
 			w.expr(a)
 		}
-		body := norm(w.sub(func() { w.block(fl.Body.List) }), w.bodyTail(fl.Type))
 		if deferred {
-			for _, n := range body {
+			for _, n := range norm(w.sub(func() { w.block(fl.Body.List) }), w.bodyTail(fl.Type)) {
 				w.emit(n)
 			}
 			return
 		}
-		w.emit(&node{kind: "scope", body: body})
+		// an immediately invoked literal is a helper without a name: same normal form as an inlined helper (every
+		// `return` of it is equivalent to reaching its end), so that turning it into a method or back changes nothing
+		w.emitCallee(norm(w.sub(func() { w.block(fl.Body.List) }), "ret:*"))
 		return
 	}
 	// calls in receiver position first
